@@ -445,8 +445,10 @@ def rule_tt4_layout(report, prog, rule='C01-R6'):
     if not tags:
         return
     problems = []
+    from . import t4model
+    limit, limit_why = t4model.address_limit(prog)      # first file offset that READ / UPDATE BINARY as built here cannot address
     for tag, _ in tags:
-        for mfs in (5, 64, 255, 256, 2048, 32767, 65535, 65536, 2 ** 32 - 1):
+        for mfs in (5, 64, 255, 256, 2048, 32767, 32768, 65535, 65536, 65537, 65540, 2 ** 17, 2 ** 32 - 1):
             env = {'tag': tag, 'mfs': mfs, 'mle': 255, 'mlc': 255, 'rf': 0, 'wf': 0}
             attrs = {}
             seen_unpack = False
@@ -470,11 +472,18 @@ def rule_tt4_layout(report, prog, rule='C01-R6'):
             want = {4: 2, 6: 4}[tag]
             if attrs.get('self._nlen_size') != want:
                 problems.append('tag %d: NLEN width %r, expected %d' % (tag, attrs.get('self._nlen_size'), want))
-            elif attrs.get('self._capacity') != mfs - want:
-                problems.append('tag %d, file size %d: capacity %r, the file holds %d message octets behind the %d octet length field'
-                                % (tag, mfs, attrs.get('self._capacity'), mfs - want, want))
-    report.check(not problems, rule, key(d.qname, 'capacity = file size - NLEN width, NLEN width 2 (T=04h) / 4 (T=06h)'), d.loc(),
-                 '; '.join(sorted(set(problems))[:3]))
+            else:
+                cap = attrs.get('self._capacity')
+                usable = mfs if limit is None else min(mfs, limit)      # octets of the file this reader / writer can reach
+                if not isinstance(cap, int) or cap > mfs - want:
+                    problems.append('tag %d, file size %d: capacity %r, the file holds %d message octets behind the %d octet length field'
+                                    % (tag, mfs, cap, mfs - want, want))
+                elif cap > usable - want:
+                    problems.append('tag %d, file size %d: capacity %r, but READ / UPDATE BINARY as built cannot address the file from offset %d on '
+                                    '(%s): at most %d message octets are reachable' % (tag, mfs, cap, limit, limit_why, usable - want))
+    report.check(not problems, rule, key(d.qname, 'capacity <= reachable file size - NLEN width, NLEN width 2 (T=04h) / 4 (T=06h)'), d.loc(),
+                 '; '.join(sorted(set(problems))[:3]),
+                 detail='folded for 13 file sizes per mapping; addressable offsets end at %s' % (limit,))
     n = 0
     for fn in ('_read_ndef_data', '_write_ndef_data', '_wipe_ndef_data'):
         f = prog.func('nfc.tag.tt4.Type4Tag.NDEF.' + fn)
@@ -661,7 +670,9 @@ MUTANTS = [
     ('tt4-update-returns-len', 'nfc.tag.tt4', """            self.tag.send_apdu(0, 0xD6, p1, p2, data[:max_data])
             return max_data""", """            self.tag.send_apdu(0, 0xD6, p1, p2, data[:max_data])
             return len(data)""", 'C01-R4'),
-    ('tt4-capacity-ignores-enlen', 'nfc.tag.tt4', "self._capacity = mfs - tag + 2", "self._capacity = mfs - 2", 'C01-R6'),
+    ('tt4-capacity-unclamped', 'nfc.tag.tt4', "self._capacity = min(mfs, 0x10000) - tag + 2", "self._capacity = mfs - tag + 2", 'C01-R6'),
+    ('tt4-capacity-clamp-one-over', 'nfc.tag.tt4', "self._capacity = min(mfs, 0x10000) - tag + 2", "self._capacity = min(mfs, 0x10001) - tag + 2", 'C01-R6'),
+    ('tt4-capacity-ignores-enlen', 'nfc.tag.tt4', "self._capacity = min(mfs, 0x10000) - tag + 2", "self._capacity = min(mfs, 0x10000) - 2", 'C01-R6'),
     ('tt4-nlen-width', 'nfc.tag.tt4', "self._nlen_size = tag - 2", "self._nlen_size = 2", 'C01-R6'),
     ('tt2-flush-sector-unit', 'nfc.tag.tt2', "                self._tag.sector_select(index >> 10)\n                self._tag.write(index >> 2, data)",
      "                self._tag.sector_select(index >> 12)\n                self._tag.write(index >> 2, data)", 'C01-R6'),
